@@ -174,7 +174,7 @@ example : Node.PatternOk d1Tree.root := by
 example : d1Path ≠ [] ∧ d1Path ≠ [42] ∧ (d1Tree.trace = none ∨ bGET ≠ mTRACE) := by decide
 
 /-- The request reaches the backtracking branch (`{page:\d+}` captures `7`, its subtree misses on
-`/log`, the capture is deleted) and arrives at `{action}/log` with exactly `{id:5, action:7}`. -/
+`/log`, the capture is undone) and arrives at `{action}/log` with exactly `{id:5, action:7}`. -/
 example : ((foundOf (d1Tree.handler env0 d1Path [] bGET)).map (·.params)) =
     some [([105,100], [53]), ([97,99,116,105,111,110], [55])] := by decide
 example : ((foundOf (d1Tree.handler env0 d1Path [] bGET)).map (fun f => (f.node.map (·.pattern), f.ok, f.handler))) =
@@ -189,12 +189,15 @@ example : IdxLit (.mk { value := [] } [] 0 [] [(97, 0), (98, 1)]
   apply IdxLit.of_positions
   decide
 
-/-! ## Why the name hypothesis is needed
+/-! ## The name hypothesis and the D30 repair
 
-Without `NamesOk` even the lookup form fails: with `{i}/` above the siblings `{i}/z` (same name as
-its parent, abandoned) and `{a}/`, the request `5/7/` is answered by `{a}/` with `{a:7}` only — the
-abandoned sibling deleted the parent's capture `i`, although the names along the chain that was
-finally taken (`i`, `a`) are distinct. -/
+Before the D30 repair (the undo after an abandoned child was `ctx.Delete(name)`), even the lookup form failed
+without `NamesOk`: with `{i}/` above the siblings `{i}/z` (same name as its parent, abandoned) and `{a}/`, the
+request `5/7/` was answered by `{a}/` with `{a:7}` only — the abandoned sibling deleted the parent's capture `i`,
+although the names along the chain that was finally taken (`i`, `a`) are distinct.  With the repair the undo puts the
+previous value back (`restoreParam`), and the same request now reports `{i:5, a:7}`; `NamesOk` stays as the
+hypothesis of the theorems above (it is what makes `ps ++ captures chain` the exact answer), the law without it
+is `Mux.P19.matchChildren_restore` (Proofs/RestoreMatch.lean) and `C01_group_dispatch_exact` (C01group.lean). -/
 
 def cexRoot : Node :=
   .mk { value := [] } [] 0 [] []
@@ -207,7 +210,7 @@ def paramsOf : MR → Option Params
   | .hit _ ps => some ps
   | _ => none
 
-example : paramsOf (cexRoot.matchChildren env0 [] [53,47,55,47] []) = some [([97], [55])] := by decide
+example : paramsOf (cexRoot.matchChildren env0 [] [53,47,55,47] []) = some [([105], [53]), ([97], [55])] := by decide
 example : ¬ NamesOkL [] cexRoot.children := by decide
 
 end Mux.C01
